@@ -41,17 +41,22 @@ def check(ctx: Ctx) -> str:
     ctx.rule("R2", "tojson: htmlsafe_json_dumps serialises first, then replaces exactly the four characters < > & ' with unicode escapes, and marks the result safe last")
     hj = repo.func("utils:htmlsafe_json_dumps")
     rets = astq.returns(hj.nnode)  # normal form: a local naming the serialised text is inlined
-    ctx.need(len(rets) == 1, "htmlsafe_json_dumps shape changed")
-    chain = []
-    cur = rets[0].value
-    ok_outer = isinstance(cur, ast.Call) and astq.callee(cur) in ("markupsafe.Markup", "Markup") and len(cur.args) == 1
-    cur = cur.args[0] if ok_outer else cur  # type: ignore[union-attr]
-    while isinstance(cur, ast.Call) and isinstance(cur.func, ast.Attribute) and cur.func.attr == "replace":
-        chain.append((ast.literal_eval(cur.args[0]), ast.literal_eval(cur.args[1])))
-        cur = cur.func.value
-    base = ast.unparse(cur)
+    ctx.need(len(rets) >= 1, "htmlsafe_json_dumps shape changed")
     want = {"<": "\\u003c", ">": "\\u003e", "&": "\\u0026", "'": "\\u0027"}
-    ctx.check(ok_outer and dict(chain) == want and base.startswith("dumps(obj"), "tojson:replacements", "utils:htmlsafe_json_dumps", f"replacements {dict(chain)}",
+    ok_outer, chain, base = True, [], ""
+    for r_ in rets:  # (the normal form may split the function per default-argument branch)
+        chain = []
+        cur = r_.value
+        oo = isinstance(cur, ast.Call) and astq.callee(cur) in ("markupsafe.Markup", "Markup") and len(cur.args) == 1
+        cur = cur.args[0] if oo else cur  # type: ignore[union-attr]
+        while isinstance(cur, ast.Call) and isinstance(cur.func, ast.Attribute) and cur.func.attr == "replace":
+            chain.append((ast.literal_eval(cur.args[0]), ast.literal_eval(cur.args[1])))
+            cur = cur.func.value
+        base = ast.unparse(cur)
+        ok_outer = ok_outer and oo and dict(chain) == want and base.startswith(("dumps(obj", "json.dumps(obj"))
+        if not ok_outer:
+            break
+    ctx.check(ok_outer, "tojson:replacements", "utils:htmlsafe_json_dumps", f"replacements {dict(chain)}",
               f"htmlsafe_json_dumps must be Markup(dumps(obj, ...).replace(...)) with exactly {want}; found replacements {dict(chain)} on `{base[:40]}`", hj.loc(), detail={"replacements": dict(chain)})
     tj = repo.func("filters:do_tojson")
     s = ast.unparse(tj.node)
@@ -62,7 +67,10 @@ def check(ctx: Ctx) -> str:
         dv = kwd.get("dumps")
         if isinstance(dv, ast.Name):
             d_src = [a_ for a_ in ast.walk(tj.node) if isinstance(a_, ast.Assign) and len(a_.targets) == 1 and isinstance(a_.targets[0], ast.Name) and a_.targets[0].id == dv.id]
-            deleg_ok = len(d_src) == 1 and ast.unparse(d_src[0].value) == "policies['json.dumps_function']" and None in kwd and ast.unparse(kwd[None]) == "kwargs"
+            # the ** argument is the local holding policies['json.dumps_kwargs'] (whatever its name)
+            kwv = kwd.get(None)
+            k_src = [a_ for a_ in ast.walk(tj.node) if isinstance(a_, ast.Assign) and len(a_.targets) == 1 and isinstance(a_.targets[0], ast.Name) and isinstance(kwv, ast.Name) and a_.targets[0].id == kwv.id]
+            deleg_ok = len(d_src) == 1 and ast.unparse(d_src[0].value) == "policies['json.dumps_function']" and bool(k_src) and any("policies['json.dumps_kwargs']" in ast.unparse(a_.value) for a_ in k_src)
     ctx.check(deleg_ok and "policies['json.dumps_kwargs']" in s, "tojson:filter", "filters:do_tojson", "delegation", "the tojson filter must serialise through htmlsafe_json_dumps with the policy's dumps function and kwargs", tj.loc())
 
     ctx.rule("R3", "xmlattr: every emitted key passed the key check, key and value are escaped, the key pattern contains ASCII whitespace, '/', '>' and '='; None / undefined values are skipped")
